@@ -33,6 +33,24 @@ from ..model import AnalysisError
 from ..x_taint import flow_taint, expr_tainted, regex_guard, regex_cleaner, guards_in, detects_all, HelperSummaries
 from ..x_cookie import analyse as analyse_cookie, text_params
 
+from ..x_http import norm_func
+
+# private helpers that the rules model by name (sanitisers / summarised effects) and therefore must stay calls
+KEEP_CALLS = {"_format_chunk", "_convert_header_value", "_clear_representation_headers", "_can_keep_alive", "_compressible_type",
+              "_on_write_complete", "_finish_request", "_clear_callbacks"}
+
+
+def F(ck, relpath, qualname):
+    """The anchored function with its private same-file helpers inlined (function splitting is followed, depth 3)."""
+    fi = ck.func(relpath, qualname)
+    try:
+        return norm_func(ck.repo, fi, depth=3, no_inline=KEEP_CALLS)
+    except AnalysisError:
+        raise
+    except Exception as e:  # the normaliser must never turn into a verdict
+        raise AnalysisError("cannot normalise %s: %r" % (qualname, e))
+
+
 TECHNIQUE = "flow-sensitive taint over the CFG with regex guards decided by automaton inclusion; dominance/kill facts for the final CR/LF guard"
 EXPLANATION = (
     "Sources are the parameters of the header-producing APIs of RequestHandler; sinks are stores into _headers/_reason/the cookie morsel "
@@ -73,7 +91,7 @@ def _nontext_cleaner(n, kind, tainted):
 
 
 def check_value_chars(ck):
-    fi = ck.func(WEB, RH + "._convert_header_value")
+    fi = F(ck, WEB, RH + "._convert_header_value")
     ps = [p for p in fi.params() if p != "self"]
     if len(ps) != 1:
         raise AnalysisError("_convert_header_value signature changed")
@@ -99,10 +117,27 @@ def check_value_chars(ck):
 
 def _header_writers(ck):
     """(fi, cfg node, kind, name expr, value expr) for every direct write to self._headers in RequestHandler."""
+    from ..rules import callers_of, references_to
+
     out = []
-    for fi in list(ck.repo.module(WEB).funcs.values()):
-        if "self" not in fi.params()[:1] or not any(q.dotted(x) == "self._headers" for x in q.walk_body(fi.node) if isinstance(x, ast.Attribute)):
+    for fi0 in list(ck.repo.module(WEB).funcs.values()):
+        if "self" not in fi0.params()[:1]:
             continue
+        fi = norm_func(ck.repo, fi0, depth=3, no_inline=KEEP_CALLS)
+        if not any(q.dotted(x) == "self._headers" for x in q.walk_body(fi.node) if isinstance(x, ast.Attribute)):
+            continue
+        if fi0.name.startswith("_") and not fi0.name.startswith("__") and fi0.name not in KEEP_CALLS:
+            # a private helper is judged where it is used: inlined into its callers (parameters replaced by the
+            # callers' arguments).  It must then really have been inlined everywhere it is called.
+            calls = callers_of(ck.repo, fi0.name, [WEB])
+            refs = references_to(ck.repo, fi0.name, [WEB])
+            if calls and len(refs) == len(calls):
+                for cfi, _c in calls:
+                    ncfi = norm_func(ck.repo, cfi, depth=3, no_inline=KEEP_CALLS)
+                    if any(q.call_attr(x) == fi0.name for x in q.calls(ncfi.node, local=True)):
+                        raise AnalysisError("private helper %s writes self._headers but could not be inlined into %s" % (fi0.qualname, cfi.qualname))
+                continue
+        ck.use(fi0)
         for node in fi.cfg.stmt_nodes(lambda n: n.kind == "stmt"):
             st = node.ast
             if isinstance(st, (ast.Assign, ast.AugAssign)):
@@ -129,14 +164,14 @@ def check_value_sanitized(ck, writers):
     ck.floor("C07.value-sanitized", n, 2, "direct writes to self._headers")
     # the indirect producers use the sanitising APIs
     for qn, callee, what in ((RH + ".redirect", "self.set_header", "Location"), (RH + ".flush", "self.add_header", "Set-Cookie")):
-        fi = ck.func(WEB, qn)
+        fi = F(ck, WEB, qn)
         cs = [c for _n, c in call_sites(fi, callee) if isinstance(q.arg(c, 0), ast.Constant) and q.arg(c, 0).value == what]
         ck.ob("C07.value-sanitized", fi, fi.node, len(cs) >= 1, "%s emits %s through %s (the value check applies)" % (qn, what, callee), construct="%s not emitted through %s" % (what, callee))
 
 
 def _final_guard(ck):
     """Analyse the per-line guard of write_headers; returns the set of bytes it detects."""
-    fi = ck.func(H1, "HTTP1Connection.write_headers")
+    fi = F(ck, H1, "HTTP1Connection.write_headers")
     cfg = fi.cfg
     loops = []
     for n in cfg.stmt_nodes(lambda n: n.kind == "for"):
@@ -234,7 +269,7 @@ def check_names(ck, writers, detected_by_final):
         why = "validated in the API itself" if residual else "all of NUL/CR/LF are detected by the final guard"
         if tainted_here:
             # does the HTTPHeaders method the name lands in validate it?
-            callee = ck.func(HU, "HTTPHeaders." + kind)
+            callee = F(ck, HU, "HTTPHeaders." + kind)
             cps = [p for p in callee.params() if p != "self"]
             cstates = flow_taint(callee, cps[:1], clean_on_edge=regex_cleaner(ck.repo, callee, residual))
             ok = True
@@ -272,15 +307,15 @@ def check_reason(ck):
             ck.ob("C07.reason", fi, n.ast, ok, "the reason-phrase regex, as used (%s), proves absence of NUL/CR/LF" % g.mode)
     ck.floor("C07.reason", n_store, 2, "stores to self._reason")
     # send_error / HTTPError.reason funnel through set_status
-    se = ck.func(WEB, RH + ".send_error")
+    se = F(ck, WEB, RH + ".send_error")
     ck.ob("C07.reason", se, se.node, not q.stores_to(se.node, "self._reason") and len(call_sites(se, "self.set_status")) >= 1,
           "send_error passes its reason (and HTTPError.reason) to set_status instead of storing it", construct="send_error bypasses set_status")
     # the status line is built from the integer code and _reason only
-    fl = ck.func(WEB, RH + ".flush")
+    fl = F(ck, WEB, RH + ".flush")
     for _n, c in call_sites(fl, "httputil.ResponseStartLine", "ResponseStartLine"):
         args = [q.dotted(a) if not isinstance(a, ast.Constant) else repr(a.value) for a in c.args]
         ck.ob("C07.reason", fl, c, len(c.args) == 3 and args[1] == "self._status_code" and args[2] == "self._reason", "the response start line carries the stored status code and the validated reason")
-    wh = ck.func(H1, "HTTP1Connection.write_headers")
+    wh = F(ck, H1, "HTTP1Connection.write_headers")
     sl = wh.params()[1]
     for node in wh.cfg.stmt_nodes(lambda n: n.kind == "stmt"):
         for b in ast.walk(node.ast):
@@ -293,7 +328,7 @@ def check_cookie(ck, writers):
     That value is emitted through add_header -> _convert_header_value (checked
     above), so a cookie parameter needs its own NUL/CR/LF check only if that
     emission route is not the sanitising one."""
-    fl = ck.func(WEB, RH + ".flush")
+    fl = F(ck, WEB, RH + ".flush")
     emitted = []
     for n in q.walk_body(fl.node):
         if isinstance(n, ast.For) and "self._new_cookie" in q.paths_in(n.iter) and isinstance(n.target, ast.Name):
@@ -419,6 +454,7 @@ MUTANTS = [
     ("reason phrase validated stripped but stored raw", _in(WEB, RH + ".set_status", replace_expr(lambda n: isinstance(n, ast.Call) and q.call_attr(n) == "fullmatch" and "reason_phrase" in _u(n), lambda n: ast.Call(func=n.func, args=[parse_expr("reason.strip()")], keywords=[]))), "C07.reason"),
     ("header value validated stripped but returned raw", _in(WEB, RH + "._convert_header_value", replace_expr(lambda n: isinstance(n, ast.Call) and q.call_attr(n) == "fullmatch", lambda n: ast.Call(func=n.func, args=[parse_expr("retval.strip()")], keywords=[]))), "C07.value-chars"),
     ("header value check applied to the first 4096 characters only", _in(WEB, RH + "._convert_header_value", replace_expr(lambda n: isinstance(n, ast.Call) and q.call_attr(n) == "fullmatch", lambda n: ast.Call(func=n.func, args=[parse_expr("retval[:4096]")], keywords=[]))), "C07.value-chars"),
+    ("server side scans only the status line (seeded C07-adv3)", _in(H1, "HTTP1Connection.write_headers", replace_stmt(lambda st: isinstance(st, ast.For) and "CR_OR_LF_RE" in _u(st), lambda st: [ast.For(target=st.target, iter=parse_expr("lines if self.is_client else lines[:1]"), body=st.body, orelse=[])])), "C07.final-guard"),
     ("final guard only logs", _in(H1, "HTTP1Connection.write_headers", _guard_logs_only), "C07.final-guard"),
     ("send_error stores the reason itself", _in(WEB, RH + ".send_error", replace_stmt(lambda st: "self.set_status(status_code, reason=reason)" in _u(st), lambda st: [parse_stmt("self._status_code = status_code"), parse_stmt("self._reason = reason or 'Unknown'")])), "C07.reason"),
 ]
